@@ -11,7 +11,7 @@ use vh_core::Run;
 
 use crate::c18::{Problem, Stats, check_dynamic, check_static, sdl_opts, texts};
 use crate::im::*;
-use crate::vis::{Flags, Pred, Vm, With, arg, fld, names, p_admin, p_never};
+use crate::vis::{Flags, Pred, VDir, Vm, With, arg, fld, names, p_admin, p_never};
 
 pub struct Witness {
     pub id: &'static str,
@@ -19,7 +19,7 @@ pub struct Witness {
     pub run: fn(&mut Stats) -> Vec<Problem>,
 }
 
-pub const WITNESSES: [Witness; 4] = [
+pub const WITNESSES: [Witness; 5] = [
     Witness {
         id: "C18-W-dynamic-interface-implements-interface",
         what: "dynamic: interface A {x: Int} interface B implements A {x: Int} type O implements A & B {x: Int} type Query {b: B}",
@@ -39,6 +39,11 @@ pub const WITNESSES: [Witness; 4] = [
         id: "C18-W-static-interface-listed-in-one-pass",
         what: "static: interface Aaa implemented only by Deep; Deep reachable only as a possible type of interface Yonder, which is reachable only because User implements it",
         run: one_pass::run,
+    },
+    Witness {
+        id: "C18-W-static-hidden-custom-directive",
+        what: "static: type Query {ok: Int!} with Schema::directive of #[Directive(visible = false)] zz_never_mark, #[Directive(visible = \"is_admin\")] zz_admin_mark and whisper(#[graphql(visible = \"is_admin\")] zzAdminHush, low), introspected without and with the admin flag",
+        run: hidden_directive::run,
     },
 ];
 
@@ -94,7 +99,7 @@ fn vm(full: IModel, preds: &[(&str, Pred)]) -> Vm {
     for (p, f) in preds {
         vis.insert(p.to_string(), *f);
     }
-    Vm { full, vis }
+    Vm { full, vis, dirs: vec![] }
 }
 
 fn over_contexts(
@@ -331,5 +336,58 @@ mod one_pass {
         m.add(IType { name: "Query".into(), desc: None, kind: IKind::Object { fields: vec![fld("user", "User!")], implements: vec![] } });
         let exec = |r: Request| vh_core::vsched::block_on(schema.execute(r));
         over_contexts(&exec, Some(schema.sdl_with_options(sdl_opts())), &vm(m, &[]), &[0], st)
+    }
+}
+
+mod hidden_directive {
+    use async_graphql::*;
+
+    use super::*;
+
+    fn is_admin(ctx: &Context<'_>) -> bool {
+        ctx.data_opt::<crate::vis::Flags>().map(|f| f.admin).unwrap_or(false)
+    }
+
+    pub struct NoEffect;
+    impl CustomDirective for NoEffect {}
+
+    #[Directive(location = "Field", visible = false)]
+    pub fn zz_never_mark() -> impl CustomDirective {
+        NoEffect
+    }
+    #[Directive(location = "Field", visible = "is_admin")]
+    pub fn zz_admin_mark() -> impl CustomDirective {
+        NoEffect
+    }
+    #[Directive(location = "Field")]
+    pub fn whisper(#[graphql(visible = "is_admin")] zz_admin_hush: Option<bool>, low: Option<i32>) -> impl CustomDirective {
+        let _ = (zz_admin_hush, low);
+        NoEffect
+    }
+
+    pub struct Query;
+    #[Object]
+    impl Query {
+        async fn ok(&self) -> i32 {
+            0
+        }
+    }
+
+    pub fn run(st: &mut Stats) -> Vec<Problem> {
+        let schema = Schema::build(Query, EmptyMutation, EmptySubscription)
+            .directive(zz_never_mark)
+            .directive(zz_admin_mark)
+            .directive(whisper)
+            .finish();
+        let mut m = with_builtins("Query");
+        m.add(IType { name: "Query".into(), desc: None, kind: IKind::Object { fields: vec![fld("ok", "Int!")], implements: vec![] } });
+        let exec = |r: Request| vh_core::vsched::block_on(schema.execute(r));
+        let mut v = vm(m, &[("@zz_never_mark", p_never), ("@zz_admin_mark", p_admin), ("@whisper(zzAdminHush)", p_admin)]);
+        v.dirs = vec![
+            VDir { name: "zz_never_mark".into(), args: vec![] },
+            VDir { name: "zz_admin_mark".into(), args: vec![] },
+            VDir { name: "whisper".into(), args: names(&["zzAdminHush", "low"]) },
+        ];
+        over_contexts(&exec, Some(schema.sdl_with_options(sdl_opts())), &v, &[0, 1], st)
     }
 }
